@@ -12,6 +12,7 @@ LEVEL = 'exploration'
 U5 = [0, 1, 7, 300, 32767]
 U7 = [0, 1, 2, 7, 300, 32766, 32767]
 WIDTHS = [('u2', 'u2', 'u2'), ('u2', 'u4', 'u8'), ('i8', 'i2', 'u4')]
+U_ALIAS5 = [1, 2, 2 ** 16 + 1, 2 ** 32 + 1, 2 ** 32 + 2 ** 16 + 2]
 WIDER = {'u2': 'u4', 'u4': 'u8', 'u8': 'u8', 'i2': 'i8', 'i4': 'u8', 'i8': 'u8'}
 DMAX = {'u2': 2 ** 16 - 1, 'u4': 2 ** 32 - 1, 'u8': 2 ** 64 - 1, 'i2': 2 ** 15 - 1, 'i4': 2 ** 31 - 1, 'i8': 2 ** 63 - 1}
 SLACK = 2.0 ** -22
@@ -29,6 +30,8 @@ DEADLINE_S = {'quick': 200, 'thorough': 2400}
 
 
 def enum_cases(tier):
+	for am in range(32):
+		yield {'kind': 'block', 'universe': U_ALIAS5, 'amask': am, 'bmask': None, 'restrict': True}
 	if tier == 'quick':
 		for am in range(32):
 			yield {'kind': 'block', 'universe': U5, 'amask': am, 'bmask': None}
@@ -105,6 +108,10 @@ def run_case(case, ctx):
 				c = sub(cm)
 				for dts in WIDTHS:
 					one = {'kind': 'triple', 'a': a, 'b': b, 'c': c, 'dts': list(dts), 'x': extra}
+					if case.get('restrict'):
+						ra, rb, rc = ([v for v in s_ if v <= DMAX[dt]] for s_, dt in zip((a, b, c), dts))
+						check_triple(np, jaccarddist, (ra, rb, rc), dts, one, extra=None, widen=True)
+						continue
 					check_triple(np, jaccarddist, (a, b, c), dts, one, extra=extra if dts == WIDTHS[1] else None, widen=(dts == WIDTHS[0]))
 					evals += 1
 					if len({case['amask'], bm, cm}) == 3 and (set(a) & set(b) or set(b) & set(c) or set(a) & set(c)):
@@ -142,7 +149,7 @@ DT_TRIPLES = [('u8', 'u8', 'u8'), ('u4', 'u4', 'u4'), ('u2', 'u2', 'u2'), ('u2',
 def triple_case(draw, tier):
 	dts = draw(st.sampled_from(DT_TRIPLES))
 	lim = min(DMAX[d] for d in dts)
-	shape = draw(st.sampled_from(['near_equal', 'chain', 'independent', 'near_disjoint', 'tiny']))
+	shape = draw(st.sampled_from(['near_equal', 'chain', 'independent', 'near_disjoint', 'tiny', 'alias']))
 	rnd = random.Random(draw(st.integers(0, 2 ** 32 - 1)))
 	if shape == 'tiny':
 		n = draw(st.integers(1, 8))
@@ -151,6 +158,13 @@ def triple_case(draw, tier):
 	span = min(lim, rnd.choice((n * 2, n * 10, 2 ** 15, 2 ** 31, 2 ** 40)))
 	span = max(span, n + 2)
 	U = sorted(rnd.sample(range(span), n)) if span < 10 ** 6 else sorted({rnd.randrange(span) for _ in range(n)})
+	if shape == 'alias':
+		# values that collide when truncated to a narrower integer type; each set is later restricted to what its own dtype holds
+		win = sorted(rnd.sample(range(1, 200), min(n, 12)))
+		shifts = [0, 2 ** 16, 2 ** 32, 2 ** 32 + 2 ** 16, 2 ** 31, 2 ** 15]
+		U = sorted({v + sh for v in win for sh in shifts})
+		lim = max(DMAX[d] for d in dts)
+		U = [u for u in U if u <= lim]
 	flip = lambda s, m: sorted(set(s) ^ set(rnd.sample(U, min(m, len(U)))))
 	if shape == 'near_equal':
 		a = [u for u in U if rnd.random() < 0.8]
@@ -171,6 +185,8 @@ def triple_case(draw, tier):
 		a = [u for u in U if rnd.random() < 0.5]
 		b = [u for u in U if rnd.random() < 0.5]
 		c = [u for u in U if rnd.random() < 0.5]
+	if shape == 'alias':
+		return {'kind': 'triple', 'a': a, 'b': b, 'c': c, 'dts': list(dts), 'x': None, 'shape': shape}
 	x = None
 	cand = rnd.randrange(span + 1)
 	if cand not in set(U) and cand <= lim:
